@@ -776,7 +776,7 @@ func (h *harness) applyBinary(t []string) string {
 	fl("api-referrer", c.ref)
 	fl("store-ro", c.ro)
 	for i := 0; i < c.nwarn; i++ {
-		args = append(args, "--warning", fmt.Sprintf("verif warning %d", i))
+		args = append(args, "--warning", fmt.Sprintf("verif warning %d, with a comma", i))
 	}
 	if c.limit != 0 {
 		args = append(args, "--rate-limit", strconv.Itoa(c.limit))
